@@ -231,6 +231,9 @@ def hash_reads(ck, P):
 
 def run(ck):
     exclusive_access(ck, prog("K1"))
+    # round 10: a reset stream has the flags of a fresh one
+    from . import c14 as _c14f
+    _c14f.reset_flags(ck, prog("K1"))
     # a header write suspended before a reset must not leave its offset behind (round 9)
     from . import c20 as _c20s
     _c20s.resume_from_gzindex(ck, prog("K1"))
